@@ -44,6 +44,6 @@ func run(c *hlib.Ctx) {
 	lakeh.RunPlan(c, lakeh.Plan{
 		Opt:      lakeh.Options{Prop: "C14", Determinism: 2, Reopen: true, StopOnFail: true},
 		Profiles: []lakeh.Profile{guarded, guarded, open},
-		Quick:    70, Thorough: 2500,
+		Quick:    70, Thorough: 1500,
 	})
 }
